@@ -338,6 +338,84 @@ def buffering(V, **params):
     return c08.buffering(V, **params)
 
 
+def resize_lowering(V, kind, factor):
+    """a RESIZE lowered to x2 nearest-neighbour stages and a final average pool never makes the NPU fetch rows or columns its input does not have:
+    the REAL convert_resize_to_upscale_and_average_pool on a real Operation with SYMBOLIC input height and width (output = input x factor, or
+    (input - 1) x factor + 1 with align_corners), factor 2 / 4 / 8.  The hardware derives the extent it reads from the OFM size, the kernel and
+    the padding: per stage (OFM - 1) + kernel - padding before - padding after rows of the x2-upscaled input.  Claims per stage and axis: that
+    extent is exactly twice the stage's input extent; the stages are chained (each reads the previous one's output) and the last writes the
+    original output tensor."""
+    import ethosu.vela.tflite_graph_optimiser as go
+    from ethosu.vela.operation import Op, Operation, Padding
+    from ethosu.vela.tensor import Tensor, QuantizationParameters
+    from ethosu.vela.data_type import DataType
+    from ethosu.vela.ethos_u55_regs.ethos_u55_regs import resampling_mode
+
+    align = kind.endswith("_align_corners")
+    bilinear = kind.startswith("bilinear")
+    h, w = V.int("ifm_height", 2, 512), V.int("ifm_width", 2, 512)
+    out = (lambda d: (d - 1) * factor + 1) if align else (lambda d: d * factor)
+    q = QuantizationParameters()
+    q.scale_f32, q.zero_point = 0.5, 0
+    ifm, ofm = Tensor([1, h, w, 8], DataType.int8, "ifm"), Tensor([1, out(h), out(w), 8], DataType.int8, "ofm")
+    ifm.quantization, ofm.quantization = q.clone(), q.clone()
+    size = Tensor([2], DataType.int32, "size")
+    op = Operation(Op.ResizeBilinear if bilinear else Op.ResizeNearestNeighbor, "resize")
+    op.inputs, op.outputs = [ifm, size], [ofm]
+    ofm.ops = [op]
+    op.attrs = {"align_corners": align, "half_pixel_centers": False, "upscale_factor": factor}
+    op.run_on_npu = True
+    stages = []
+
+    class DB:
+        @staticmethod
+        def add_optimised(parent, new):
+            if not any(new is x for x in stages):
+                stages.append(new)
+
+    saved = go.DebugDatabase
+    go.DebugDatabase = DB
+    try:
+        with core.shims((go, {"int": core.IntShim, "max": core.smax, "min": core.smin})):
+            op.set_ifm_ofm_shapes()
+            go.convert_resize_to_upscale_and_average_pool(op)
+    finally:
+        go.DebugDatabase = saved
+    n = {2: 1, 4: 2, 8: 3}[factor]
+    cl = [("one stage per factor of two", len(stages) == n), ("the last stage writes the original output tensor", stages and stages[-1].outputs[0] is ofm),
+          ("the first stage reads the original input", stages and stages[0].inputs[0] is ifm)]
+    for i, st in enumerate(stages):
+        if i:
+            cl.append(("stage %d reads the output of stage %d" % (i, i - 1), st.inputs[0] is stages[i - 1].outputs[0]))
+        cl.append(("stage %d upscales its input x2 (nearest)" % i, st.ifm_resampling_mode == resampling_mode.NEAREST))
+        k = st.attrs["ksize"]
+        pad = st.attrs.get("padding")
+        if st.type not in (Op.ResizeBilinear, Op.ResizeNearestNeighbor):
+            # align_corners nearest neighbour: the last stage is a depthwise convolution that selects one sample (convert_resizenn_ac_to_depthwise_conv)
+            wt = st.inputs[1]
+            depth = int(ofm.shape[-1])
+            vals = wt.values
+            cl.append(("stage %d: a factor x factor depthwise kernel per channel, one bias per channel" % i,
+                       st.type == Op.DepthwiseConv2DBias and list(wt.shape) == [factor, factor, 1, depth] and list(vals.shape) == [factor, factor, 1, depth]
+                       and st.inputs[2] is not None and list(st.inputs[2].shape) == [depth]))
+            cl.append(("stage %d: every channel selects the one centre sample" % i,
+                       all(int(vals[:, :, 0, c].sum()) == 1 and int(vals[factor // 2, factor // 2, 0, c]) == 1 for c in range(depth))))
+            cl.append(("stage %d: unpadded" % i, st.attrs.get("padding") == Padding.VALID))
+            for axis, name in ((1, "rows"), (2, "columns")):
+                cl.append(("stage %d: the %s the NPU fetches are exactly the x2-upscaled input" % (i, name),
+                           (L(st.outputs[0].shape[axis]) - 1) + factor == 2 * L(st.inputs[0].shape[axis])))
+            continue
+        ep = st.attrs.get("explicit_padding", [0, 0, 0, 0]) if pad == Padding.EXPLICIT else [0, 0, 0, 0]
+        same_1x1 = pad == Padding.SAME and tuple(k) == (1, 1, 1, 1)
+        cl.append(("stage %d: padding mode is one the extent rule below covers" % i, pad in (Padding.EXPLICIT, Padding.VALID) or same_1x1))
+        ishape, oshape = st.inputs[0].shape, st.outputs[0].shape
+        for axis, name, before, after in ((1, "rows", ep[0], ep[2]), (2, "columns", ep[1], ep[3])):
+            need = (L(oshape[axis]) - 1) + L(k[axis]) - L(before) - L(after)
+            cl.append(("stage %d: the %s the NPU fetches are exactly the x2-upscaled input (%d-wide kernel, padding %s+%s)" % (i, name, int(k[axis]), before, after),
+                       need == 2 * L(ishape[axis])))
+    return cl
+
+
 def tile_padding(V, W, C, elem, direction):
     """tile padding (2x2 depthwise convolutions of a half-pixel-centres bilinear resize): modify_tile_addresses_for_padding re-points the four
     tiles so that the (H+1)x(W+1) window the kernel reads replicates the edge row/column.  For every element (y, x, c) of that window the byte the
@@ -473,11 +551,14 @@ def footprint_strided(V, first_dense):
     return [("every element of the strided view lies inside a declared address range", z3.Or(*inside) if inside else z3.BoolVal(False))]
 
 
-FUNCS = {"restripe_buffers": restripe_buffers, "programmed_kernel": programmed_kernel, "footprint_strided": footprint_strided, "format_rules": format_rules, "tile_padding": tile_padding, "rolling_dims": rolling_dims, "weight_dma": weight_dma, "buffering": buffering, "weight_ranges": weight_ranges, "idle_core": idle_core, "fm_in_tensor": fm_in_tensor, "lr_rolling": lr_rolling, "nhcwb16_shapes": nhcwb16_shapes, "footprint": footprint, "mem_limits": mem_limits, "rolling": rolling, "regions": regions}
+FUNCS = {"resize_lowering": resize_lowering, "restripe_buffers": restripe_buffers, "programmed_kernel": programmed_kernel, "footprint_strided": footprint_strided, "format_rules": format_rules, "tile_padding": tile_padding, "rolling_dims": rolling_dims, "weight_dma": weight_dma, "buffering": buffering, "weight_ranges": weight_ranges, "idle_core": idle_core, "fm_in_tensor": fm_in_tensor, "lr_rolling": lr_rolling, "nhcwb16_shapes": nhcwb16_shapes, "footprint": footprint, "mem_limits": mem_limits, "rolling": rolling, "regions": regions}
 
 
 def instances(tier, seed):
     out = []
+    for kind in ("bilinear", "bilinear_align_corners", "nearest", "nearest_align_corners"):
+        for factor in (2, 4, 8):
+            out.append(dict(key="resize_lowering/%s/x%d" % (kind, factor), fn="resize_lowering", params=dict(kind=kind, factor=factor)))
     for layout in ("NHWC", "NHCWB16"):
         for width in (1, 3, 8):
             for depth in (1, 16, 17, 40):
